@@ -67,7 +67,7 @@ HIGHER = [
     F(AA, A), F(AA, A, A), F(A, AA, A), F(AA, AA, A), F(AA, AA, A, A),
     F(AA, A, AA, A), F(AA, AA, AA, A, A), F(AAA, A, A), F(AAA, A, A, A),
     F(A, AAA, A), F(AA, A, A, A), F(A, AA, A, A), F(AA, AAA, A, A),
-    F(A, A, A, AA, A), F(AA, A, A, AA, A), F(A, A, AA, AA, A),
+    F(A, A, A, AA, A), F(AA, A, A, AA, A), F(A, A, AA, AA, A), F(F(A, A, A, A), A, A),
 ]
 THIRD = [F(F(AA, A), A), F(F(AA, A, A), A, A), F(F(AA, A), AA, A)]
 
@@ -308,6 +308,10 @@ def annotate(lang: Lang, w, venv=None):
             env2[p] = pts[i] if i < len(pts) else None
         annotate(lang, x["b"], env2)
         w["fn"] = True if pt is None else is_fun(pt)
+    elif x["k"] == "var":
+        # a parameter handed on as an argument stands for its internal node, i.e. it is data,
+        # whatever its type (graph.py:351 sees a TypeVariable, never a Function operation)
+        w["fn"] = False
     else:
         xt = annotate(lang, x, venv)
         w["fn"] = is_fun(pt) if pt is not None else (is_fun(xt) if xt is not None else w["fn_impl"])
@@ -774,6 +778,10 @@ def run_impl(case: Case) -> bool:
     annotate(lang, w)
     set_opi(lang, w)
     case.w, case.keep = w, keep
+    acc = Counter()
+    stats(w, acc)
+    if acc["nodes"] > MAX_NODES:
+        return False
     case.text = wexpr_text(w)
     case.dom = in_domain(w)
     case.impl, case.impl_error = None, None
@@ -796,22 +804,13 @@ def fn_mismatch(w) -> bool:
 
 
 OBS_HDR = HDR + """
-Definition teqb (a b : triple) : bool :=
-  Nat.eqb (fst (fst a)) (fst (fst b)) && Nat.eqb (snd (fst a)) (snd (fst b)) && Nat.eqb (snd a) (snd b).
-Definition subset (l1 l2 : list triple) : bool := forallb (fun t => existsb (teqb t) l2) l1.
-Definition same (r1 r2 : option (node * list triple)) : bool :=
-  match r1, r2 with
-  | Some (n1, l1), Some (n2, l2) => Nat.eqb n1 n2 && subset l1 l2 && subset l2 l1
-  | None, None => true
-  | _, _ => false
-  end.
-(* pinned model; 1 if the repaired model gives the same graph, else 0 followed by it;
-   in the theorem's domain?; does flow (label0 e) equal the repaired model's graph? *)
+(* model of the pinned code; model of the repaired code; in the theorem's domain?;
+   the declarative graph flow (label0 e) *)
 Definition obs (e : expr) :=
-  let rp := run true e in let rf := run false e in
-  (rp, Nat.b2n (same rp rf), (if same rp rf then None else rf), dom e,
-   Nat.b2n (same rf (Some (lnode (label0 e), flow (label0 e))))).
+  (run true e, run false e, dom e, (lnode (label0 e), flow (label0 e))).
 """
+
+MAX_NODES = 160     # larger expressions are skipped (cost of evaluating the model inside Coq)
 
 
 def evaluate(rep: C.Report, cases: list, tag: str, stats_acc: Counter, distinct: set, samples: list):
@@ -820,9 +819,10 @@ def evaluate(rep: C.Report, cases: list, tag: str, stats_acc: Counter, distinct:
     outs = C.coq_eval_blocks(f"C08_{tag}", OBS_HDR, blocks, nfiles=4)
     nviol = 0
     for c, vals in zip(cases, outs):
-        mp_raw, same, mf_raw, dom, flowok = vals[0]
+        mp_raw, mf_raw, dom, fl_raw = vals[0]
         mp = model_obs(c.lang, mp_raw)
-        mf = mp if same else model_obs(c.lang, mf_raw)
+        mf = model_obs(c.lang, mf_raw)
+        flowok = mf is not None and model_obs(c.lang, fl_raw) == mf
         stats_acc["evaluations"] += 1
         stats_acc["in_domain" if c.dom else "out_of_domain"] += 1
         if bool(dom) != c.dom:
@@ -897,7 +897,7 @@ def build_cases(lang: Lang, items, out: list, skipped: Counter):
         if run_impl(c):
             out.append(c)
         else:
-            skipped["not_buildable"] += 1
+            skipped["not_buildable_or_too_large"] += 1
 
 
 def main(tier: str, seed: int, replay: str | None = None) -> int:
@@ -913,7 +913,7 @@ def main(tier: str, seed: int, replay: str | None = None) -> int:
     build_cases(fixed_lang(), [(n, t, 2) for n, t in FIXED_TERMS], cases, skipped)
     nfixed = len(cases)
     # 2. random languages and expressions
-    nlang, per = (60, 10) if tier == "quick" else (500, 12)
+    nlang, per = (80, 10) if tier == "quick" else (400, 10)
     for _ in range(nlang):
         lang = gen_lang(rng, third=(rng.random() < 0.15))
         ops = [(o["name"], o["type"]) for o in lang.ops]
@@ -938,8 +938,8 @@ def main(tier: str, seed: int, replay: str | None = None) -> int:
         ops = [(o["name"], o["type"]) for o in small.ops]
         cache = {}
         terms = enum_terms(ops, A, 2, 2, cache)
-        if len(terms) > 3500:
-            terms = rng.sample(terms, 3500)
+        if len(terms) > 2500:
+            terms = rng.sample(terms, 2500)
         build_cases(small, [("exhaustive", t, 2) for t in terms], cases, skipped)
         nexh = len(cases) - nfixed - nrandom
     acc, distinct, samples = Counter(), set(), []
